@@ -1,6 +1,7 @@
 package props
 
 import (
+	"syscall"
 	"fmt"
 	"os"
 	"path/filepath"
@@ -29,8 +30,17 @@ func PastDeadline() bool {
 // Tick tells the watchdog that a long run is still making progress.
 func Tick() {
 	if runStart.Load() != 0 {
-		runStart.Store(time.Now().UnixNano())
+		runStart.Store(realNow())
 	}
+}
+
+// realNow reads the real clock even inside a synctest bubble (where time.Now is the fake clock).
+func realNow() int64 {
+	var tv syscall.Timeval
+	if err := syscall.Gettimeofday(&tv); err != nil {
+		return time.Now().UnixNano()
+	}
+	return tv.Sec*1e9 + tv.Usec*1e3
 }
 
 // journalDir, when set, is where engines that may crash the whole process
